@@ -1,7 +1,7 @@
 #!/bin/bash
 # run every registered check of a tier sequentially, collect exit codes and wall times (build-time convenience, not a registered command)
 tier=${1:-quick}; shift
-ids=${@:-C01 C02 C03 C04 C05 C06 C07 C08 C09 C10 C11 C12 C13 C14 C15 C16 C17 C18 C20}
+ids=${@:-C01 C02 C03 C04 C05 C06 C07 C08 C09 C10 C11 C12 C13 C14 C15 C16 C17 C18 C19 C20}
 cd "$(dirname "$0")/.."; mkdir -p /tmp/runall
 for id in $ids; do
   t0=$(date +%s)
